@@ -293,4 +293,4 @@ def run(ctx):
                 ev.count(k)
         return f
 
-    ctx.campaign("main", wrapped_cases(cfg), oracle, max_examples=ctx.n(700, 32000))
+    ctx.campaign("main", wrapped_cases(cfg), oracle, max_examples=ctx.n(1000, 32000))
